@@ -16,7 +16,7 @@ from openjd.model import (  # noqa: E402
 _SRC_CHARS = "".join(sorted({c for p in (G.__file__, M.__file__) for c in Path(p).read_text() if ord(c) > 127}))
 
 ADVERSARIAL = ["", " ", "0", "-0", "5", "-5", "007", "1_0", " 7 ", "+3", "1.5", "1e2", "1E-3", ".5", "5.", "NaN", "nan", "sNaN", "Infinity", "-Infinity", "inf", "abc", "True",
-               "9" * 40, "1" + "0" * 300, "{{Param.X}}", "{{ RawParam.Y }}", "{{", "}}", "{{a}}", "1-3", "5-3", "1-2:0", "1,2", "a,b", "*", "(A,B)", "é", "x" * 1024, "x" * 1025,
+               "9" * 40, "1" + "0" * 300, "9223372036854775807", "9223372036854775806", "-9223372036854775808", "18446744073709551616", "{{Param.X}}", "{{ RawParam.Y }}", "{{", "}}", "{{a}}", "1-3", "5-3", "1-2:0", "1,2", "a,b", "*", "(A,B)", "é", "x" * 1024, "x" * 1025,
                "/abs/path", "rel/path", "../up", "a b", "amount.x", "linux", "windows", "v1", "9x", "\n", "\t", "\x00", "٣", "１２"]
 
 
@@ -81,6 +81,17 @@ CORPUS = [
     {"doc": _jt([{"name": "S", "type": "STRING"}], {"hostRequirements": {"amounts": [{"name": "amount.{{Param.S}}", "min": 1}]}}), "envs": [], "vals": {"S": "worker.x"}},
     {"doc": _jt([{"name": "S", "type": "STRING"}], {"hostRequirements": {"attributes": [{"name": "attr.worker.os.family", "anyOf": ["{{Param.S}}"]}]}}), "envs": [], "vals": {"S": "beos"}},
     {"doc": dict(_jt([{"name": "S", "type": "STRING"}]), name="{{Param.S}}"), "envs": [], "vals": {"S": ""}},
+    {"doc": _jt([{"name": "S", "type": "STRING"}, {"name": "E", "type": "STRING"}], {"parameterSpace": {"taskParameterDefinitions": [{"name": "T", "type": "INT", "range": "{{Param.S}}-{{Param.E}}"}]}}), "envs": [], "vals": {"S": "0", "E": "9223372036854775807"}},
+    {"doc": _jt([{"name": "S", "type": "STRING"}, {"name": "E", "type": "STRING"}], {"parameterSpace": {"taskParameterDefinitions": [{"name": "T", "type": "INT", "range": "{{Param.S}}-{{Param.E}}"}]}}), "envs": [], "vals": {"S": "1", "E": "9223372036854775807"}},
+    {"doc": _jt([{"name": "S", "type": "STRING"}, {"name": "E", "type": "STRING"}], {"parameterSpace": {"taskParameterDefinitions": [{"name": "T", "type": "INT", "range": "{{Param.S}}-{{Param.E}}"}]}}), "envs": [], "vals": {"S": "-9223372036854775808", "E": "2"}},
+    {"doc": _jt([{"name": "S", "type": "STRING"}, {"name": "E", "type": "STRING"}], {"parameterSpace": {"taskParameterDefinitions": [{"name": "T", "type": "INT", "range": "{{Param.S}}-{{Param.E}}"}]}}), "envs": [], "vals": {"S": "0", "E": "18446744073709551616"}},
+    {"doc": _jt([{"name": "S", "type": "STRING"}, {"name": "E", "type": "STRING"}], {"parameterSpace": {"taskParameterDefinitions": [{"name": "T", "type": "INT", "range": "{{Param.S}}-{{Param.E}}"}]}}), "envs": [], "vals": {"S": "5", "E": "3"}},
+    {"doc": _jt([{"name": "S", "type": "STRING"}, {"name": "E", "type": "STRING"}], {"parameterSpace": {"taskParameterDefinitions": [{"name": "T", "type": "INT", "range": "{{Param.S}}-{{Param.E}}"}], "combination": "T"}}), "envs": [], "vals": {"S": "0", "E": "9223372036854775807"}},
+    {"doc": _jt([{"name": "S", "type": "STRING"}, {"name": "E", "type": "STRING"}], {"parameterSpace": {"taskParameterDefinitions": [{"name": "T", "type": "INT", "range": "{{Param.S}}-{{Param.E}}"}], "combination": "T"}}), "envs": [], "vals": {"S": "1", "E": "9223372036854775807"}},
+    {"doc": _jt([{"name": "S", "type": "STRING"}, {"name": "E", "type": "STRING"}], {"parameterSpace": {"taskParameterDefinitions": [{"name": "T", "type": "INT", "range": "{{Param.S}}-{{Param.E}}"}], "combination": "T"}}), "envs": [], "vals": {"S": "-9223372036854775808", "E": "2"}},
+    {"doc": _jt([{"name": "S", "type": "STRING"}, {"name": "E", "type": "STRING"}], {"parameterSpace": {"taskParameterDefinitions": [{"name": "T", "type": "INT", "range": "{{Param.S}}-{{Param.E}}"}], "combination": "T"}}), "envs": [], "vals": {"S": "0", "E": "18446744073709551616"}},
+    {"doc": _jt([{"name": "S", "type": "STRING"}, {"name": "E", "type": "STRING"}], {"parameterSpace": {"taskParameterDefinitions": [{"name": "T", "type": "INT", "range": "{{Param.S}}-{{Param.E}}"}], "combination": "T"}}), "envs": [], "vals": {"S": "5", "E": "3"}},
+
     {"doc": dict(_jt([{"name": "S", "type": "STRING"}]), name="{{Param.S}}"), "envs": [], "vals": {"S": "a\nb"}},
     {"doc": dict(_jt([{"name": "S", "type": "STRING"}]), name="{{Param.S}}"), "envs": [], "vals": {"S": "x" * 129}},
 ]
